@@ -325,6 +325,13 @@ class Ctx:
                 locprog.regenerate()
             except Exception as e:  # the merged lookup is no longer in the form the parameters describe
                 self.broken_obligation(f'translator (merged lookup): {type(e).__name__}: {e}')
+        if 'AeicModel.Generated.Refusals' in deps and self.pid == 'C11':
+            try:
+                from . import dispprog
+
+                dispprog.regenerate()
+            except Exception as e:  # the dispatch sites are no longer in a form the translator reads
+                self.broken_obligation(f'translator (dispatch sites): {type(e).__name__}: {e}')
         if 'AeicModel.FlightLookup' in deps:
             try:
                 from . import fidprog
